@@ -83,8 +83,12 @@ func c18Run(raw []byte) (*Line, error) {
 
 // ---------------------------------------------------------------- op 1: NodeMarks
 func c18RunMarks(c *c18Case, l *Line) (*Line, error) {
+	if len(c.Ops) == 0 {
+		return nil, fmt.Errorf("empty history: nothing would be observed")
+	}
 	for _, op := range c.Ops {
-		if op[0] < 0 || op[0] > 3 || op[1] > c18MaxID || op[1] < -c18MaxID {
+		// Mark/Unmark allocate id/32 words: bounded ids. Test/Next are defined for EVERY int and run as given.
+		if op[0] < 0 || op[0] > 3 || (op[0] <= 1 && op[1] > c18MaxID) {
 			return nil, fmt.Errorf("bad marks op")
 		}
 		if op[0] <= 1 && op[1] < 0 {
@@ -317,6 +321,9 @@ func c18RunTrav(c *c18Case, l *Line) (*Line, error) {
 	if err := c18ValidGraph(c.G); err != nil {
 		return nil, err
 	}
+	if len(c.Roots) == 0 {
+		return nil, fmt.Errorf("no root: nothing would be observed")
+	}
 	for _, r := range c.Roots {
 		if r < -c18MaxID || r > c18MaxID {
 			return nil, fmt.Errorf("bad root")
@@ -327,22 +334,26 @@ func c18RunTrav(c *c18Case, l *Line) (*Line, error) {
 	l.c18Graph(orig)
 	l.I(len(c.Roots))
 	for _, root := range c.Roots {
-		var pre, post, rev, eul, ent, ext []int
+		var pre, post, rev, rva, eul, ent, ext []int
 		pan, _ := catch(func() {
 			pre = graphalg.PreOrder(g, root)
 			post = graphalg.PostOrder(g, root)
-			rev = graphalg.Reverse(graphalg.PostOrder(g, root))
+			// Reverse "reverses xs in place and returns the slice": the returned slice (rev) and the
+			// argument after the call (rva) are both transported; post comes from a call of its own
+			rva = graphalg.PostOrder(g, root)
+			rev = append([]int{}, graphalg.Reverse(rva)...)
+			graphalg.Euler{}.Visit(g, root) // both callbacks nil: must return without touching anything
 			graphalg.Euler{Enter: func(n int) { eul = append(eul, 2*n) }, Exit: func(n int) { eul = append(eul, 2*n+1) }}.Visit(g, root)
 			graphalg.Euler{Enter: func(n int) { ent = append(ent, 2*n) }}.Visit(g, root)
 			graphalg.Euler{Exit: func(n int) { ext = append(ext, 2*n+1) }}.Visit(g, root)
 		})
 		if pan {
-			l.I(root).I(2).I(0).I(0).I(0).I(0).I(0).I(0)
+			l.I(root).I(2).I(0).I(0).I(0).I(0).I(0).I(0).I(0)
 			continue
 		}
-		l.I(root).I(0).Is(pre).Is(post).Is(rev).Is(eul).Is(ent).Is(ext)
+		l.I(root).I(0).Is(pre).Is(post).Is(rev).Is(rva).Is(eul).Is(ent).Is(ext)
 	}
-	l.B(c18Same(orig, c.G))
+	l.B(c18Same(orig, c.G)).c18Graph(c.G)
 	return l, nil
 }
 
@@ -594,6 +605,10 @@ func c18RunSCC(c *c18Case, l *Line) (*Line, error) {
 	l.c18Graph(orig).I(c.Flags)
 	var comps, outs [][]int
 	var cof []int
+	hascof := 0 // 1: flags != 0, SubnodeComponent listed; 0: no flag and SubnodeComponent(0) panics; 2: no flag and it returned
+	if c.Flags != 0 {
+		hascof = 1
+	}
 	pan, _ := catch(func() {
 		s := graphalg.SCC(g, graphalg.SCCFlags(c.Flags))
 		nc := s.NumNodes()
@@ -605,6 +620,11 @@ func c18RunSCC(c *c18Case, l *Line) (*Line, error) {
 			for v := 0; v < len(c.G); v++ {
 				cof = append(cof, s.SubnodeComponent(v))
 			}
+		} else if len(c.G) > 0 {
+			// without a flag SubnodeComponent is documented to be unavailable: it panics
+			if p2, _ := catch(func() { s.SubnodeComponent(0) }); !p2 {
+				hascof = 2
+			}
 		}
 	})
 	if pan {
@@ -614,18 +634,14 @@ func c18RunSCC(c *c18Case, l *Line) (*Line, error) {
 		for _, x := range comps {
 			l.Is(x)
 		}
-		if c.Flags != 0 {
-			l.I(1)
-		} else {
-			l.I(0)
-		}
+		l.I(hascof)
 		l.Is(cof)
 		l.I(len(outs))
 		for _, x := range outs {
 			l.Is(x)
 		}
 	}
-	l.B(c18Same(orig, c.G))
+	l.B(c18Same(orig, c.G)).c18Graph(c.G)
 	return l, nil
 }
 
@@ -696,26 +712,20 @@ func c18RunBi(c *c18Case, l *Line) (*Line, error) {
 	orig := c18Copy(c.G)
 	g := graph.IntGraph(c.G)
 	l.c18Graph(orig)
-	var ins [][]int
-	outsame, idem := true, true
+	var ins, bout [][]int
+	idem := true
 	pan, _ := catch(func() {
 		b := graph.MakeBiGraph(g)
-		if b.NumNodes() != len(orig) {
-			outsame = false
+		// the result's own NumNodes / Out are transported (bout); In is asked for every node of the argument
+		nb := b.NumNodes()
+		bout = [][]int{}
+		for j := 0; j < nb; j++ {
+			bout = append(bout, append([]int{}, b.Out(j)...))
 		}
 		for j := 0; j < len(orig); j++ {
 			ins = append(ins, append([]int{}, b.In(j)...))
-			o := b.Out(j)
-			if len(o) != len(orig[j]) {
-				outsame = false
-				continue
-			}
-			for k := range o {
-				if o[k] != orig[j][k] {
-					outsame = false
-				}
-			}
 		}
+		// "If g is already a BiGraph, this returns g": interface identity, a Go-level predicate
 		if graph.MakeBiGraph(b) != b {
 			idem = false
 		}
@@ -727,9 +737,9 @@ func c18RunBi(c *c18Case, l *Line) (*Line, error) {
 		for _, x := range ins {
 			l.Is(x)
 		}
-		l.B(outsame).B(idem)
+		l.c18Graph(bout).B(idem)
 	}
-	l.B(c18Same(orig, c.G))
+	l.B(c18Same(orig, c.G)).c18Graph(c.G)
 	return l, nil
 }
 
@@ -743,14 +753,17 @@ func c18RunEqual(c *c18Case, l *Line) (*Line, error) {
 	}
 	o1, o2 := c18Copy(c.G), c18Copy(c.G2)
 	l.c18Graph(o1).c18Graph(o2)
-	res := false
-	pan, _ := catch(func() { res = graph.Equal(graph.IntGraph(c.G), graph.IntGraph(c.G2)) })
+	res, res21 := false, false
+	pan, _ := catch(func() {
+		res = graph.Equal(graph.IntGraph(c.G), graph.IntGraph(c.G2))
+		res21 = graph.Equal(graph.IntGraph(c.G2), graph.IntGraph(c.G))
+	})
 	if pan {
-		l.I(2).I(0)
+		l.I(2).I(0).I(0)
 	} else {
-		l.I(0).B(res)
+		l.I(0).B(res).B(res21)
 	}
-	l.B(c18Same(o1, c.G) && c18Same(o2, c.G2))
+	l.B(c18Same(o1, c.G) && c18Same(o2, c.G2)).c18Graph(c.G).c18Graph(c.G2)
 	return l, nil
 }
 
@@ -831,7 +844,7 @@ func c18RunSimplify(c *c18Case, l *Line) (*Line, error) {
 			}
 		}
 	}
-	l.B(pure)
+	l.B(pure).c18Graph(c.G)
 	return l, nil
 }
 
@@ -904,7 +917,11 @@ func c18RunSub(c *c18Case, l *Line) (*Line, error) {
 			pure = false
 		}
 	}
-	l.B(pure)
+	// the arguments after the call: graph, node list, edge list
+	l.B(pure).c18Graph(c.G).Is(nodes).I(2 * len(edges))
+	for _, e := range edges {
+		l.I(e.Node).I(e.Edge)
+	}
 	return l, nil
 }
 
@@ -1421,7 +1438,7 @@ func c18RunSprint(c *c18Case, l *Line) (*Line, error) {
 			chk(etab[i][j], c.EAttrs[i][j])
 		}
 	}
-	l.B(pure)
+	l.B(pure).c18Graph(c.G)
 	return l, nil
 }
 
